@@ -595,6 +595,8 @@ def oracle(case, obs):
         return ['no-observation']
     status, n = obs[0], obs[1]
     text = bytes(x & 255 for x in obs[2:2 + n]).decode('latin-1')
+    if sum(1 for c in calls if c[0] == 1) > 1:
+        return []                           # two programs through one writer: judged by the model correspondence only (see gen)
     exp = expected_error(calls)
     if status != 0:
         if exp in ('redefinition', 'unknown-id'):
@@ -946,7 +948,16 @@ def gen(seed, tier):
     out = [(enc_all(p), {'kind': 'fixed-' + k}) for p, k in FIXED]
     while len(out) < total:
         r = rnd.random()
-        if r < 0.5:
+        if r < 0.04:
+            # TWO programs through one writer: initProgram starts afresh (the model's CInit clears names, directives, conditions and - since
+            # the repair 537d726 - the theory store). Judged through the model only (the oracle cannot cut the text between the programs);
+            # the harness-side primer (primed()) gives the oracle-level verdict on the second program.
+            p1 = g_program(rnd, theory=True, redefine=rnd.random() < 0.3)
+            if rnd.random() < 0.4 and len(p1) > 3:
+                p1 = p1[:rnd.randint(2, len(p1) - 1)]       # first program abandoned somewhere (possibly in the middle of a step)
+            p2 = g_program(rnd, theory=rnd.random() < 0.6)
+            out.append((enc_all(p1 + p2), {'kind': 'two-programs-one-writer'}))
+        elif r < 0.5:
             out.append((enc_all(g_program(rnd)), {'kind': 'plain'}))
         elif r < 0.6:
             # a single degenerate directive
